@@ -197,6 +197,7 @@ class Run:
         self.call = 0
         self.out = []
         self.n_metrics = n_metrics
+        self.sols = []
 
     # ---- canonical dumps ------------------------------------------------------------------------
     def dump(self):
@@ -272,6 +273,25 @@ def run_script(lines, **kw):
             run.fit(int(p[1]))
             out += run.out
             run.out = []
+        elif p[0] == 'getsol':
+            try:
+                sol = run.solver.get_solution(copy=p[1] == '1', best=p[2] == '1')
+                run.sols.append(sol)
+                out.append('SOL ' + ('live' if any(a is b for a, b in zip(sol.nets, run.solver.nets)) else 'frozen'))
+            except RuntimeError:
+                run.sols.append(None)
+                out.append('SOL error')
+        elif p[0] == 'evalsols':
+            vals = []
+            for sol in run.sols:
+                if sol is None:
+                    vals.append('x')
+                else:
+                    coords = [torch.zeros(2, 1) for _ in range(run.n_dims)]
+                    u = sol(*coords)
+                    u = u[0] if isinstance(u, list) else u
+                    vals.append(str(int(round(u.reshape(-1)[0].item()))))
+            out.append('EVAL ' + ' '.join(vals))
         else:
             raise ValueError(line)
     return out, run
